@@ -60,8 +60,8 @@ pub fn action_dest(i: u8) -> ProposerAction {
 
 /// Coins locked by the always-true covenant, grouped by denomination, in coin-id order.
 pub fn wallet(m: &RefState) -> Vec<(CoinID, CoinDataHeight)> {
-    let t = addr_true();
-    m.coins.iter().filter(|(_, c)| c.coin_data.covhash == t && c.coin_data.value.0 > 0).map(|(k, v)| (*k, v.clone())).collect()
+    let (t, t2) = (addr_true(), addr_true2());
+    m.coins.iter().filter(|(_, c)| (c.coin_data.covhash == t || c.coin_data.covhash == t2) && c.coin_data.value.0 > 0).map(|(k, v)| (*k, v.clone())).collect()
 }
 
 pub fn coins_of(m: &RefState, d: Denom, k: usize) -> Vec<(CoinID, CoinDataHeight)> {
@@ -134,6 +134,11 @@ pub fn tx_alphabet(n: &Node, cfg: &AlphaCfg) -> Vec<(String, Transaction, bool)>
             };
             if cfg.transfers {
                 acc.push((format!("xfer({})", short(&c.0)), tx_t(TxKind::Normal, ins.clone(), with(vec![out_t(v, *d)]), 0, vec![]), true));
+            }
+            if cfg.transfers {
+                // to the *other* always-true address: an address gains its first / loses its last coin
+                let other = if c.1.coin_data.covhash == addr_true() { addr_true2() } else { addr_true() };
+                acc.push((format!("move({})", short(&c.0)), tx_t(TxKind::Normal, ins.clone(), with(vec![out(other, v, *d)]), 0, vec![]), true));
             }
             if cfg.splits && v >= 2 {
                 acc.push((format!("split({})", short(&c.0)), tx_t(TxKind::Normal, ins.clone(), with(vec![out_t(v / 2, *d), out_t(v - v / 2, *d)]), 0, vec![]), true));
